@@ -218,3 +218,54 @@ def pattern_class(word, level):
     if exp == 0 and frac:
         return "denormal"
     return "finite"
+
+
+def scribble(tree):
+    """what a caller may legitimately do with a tree it was given: change the in-memory values
+    of metadata variables / coordinates and the attribute dictionaries IN PLACE.  Later opens must
+    not be affected (results must not share mutable state).  Returns the number of objects
+    modified.  Lazy (not yet loaded) image data is left alone."""
+    n = 0
+    for node in tree.subtree:
+        ds = node.to_dataset(inherit=False) if hasattr(node, "to_dataset") else node.ds
+        for name, var in ds.variables.items():
+            data = getattr(var, "_data", None)
+            arr = data if isinstance(data, np.ndarray) else getattr(data, "array", None)
+            if not isinstance(arr, np.ndarray) or arr.size == 0 or not arr.flags.writeable:
+                continue
+            try:
+                k = arr.dtype.kind
+                if k in "iuf":
+                    arr[...] = arr + 1
+                elif k == "c":
+                    arr[...] = arr + (1 + 1j)
+                elif k == "b":
+                    arr[...] = ~arr
+                elif k == "M":
+                    arr[...] = arr + np.timedelta64(1, "h").astype("timedelta64[ns]")
+                elif k == "m":
+                    arr[...] = arr + np.timedelta64(1, "s").astype(arr.dtype)
+                else:
+                    continue
+                n += 1
+            except Exception:  # noqa: BLE001 - e.g. overflow-free cast refused: not modifiable
+                continue
+            try:
+                var.attrs["scribbled-by-caller"] = 1
+                for key, val in list(var.attrs.items()):
+                    if isinstance(val, list):
+                        val.append("scribble")
+            except Exception:  # noqa: BLE001
+                pass
+        try:
+            node.attrs["scribbled-by-caller"] = 1
+            for key, val in list(node.attrs.items()):
+                if isinstance(val, list):
+                    val.append("scribble")
+                    n += 1
+                elif isinstance(val, dict):
+                    val["scribble"] = 1
+                    n += 1
+        except Exception:  # noqa: BLE001
+            pass
+    return n
